@@ -26,50 +26,62 @@
 #define ELEM_TRACKED(q) 1
 #endif
 enum { ELEM_RAW = 0, ELEM_LIVE = 1, ELEM_MOVED = 2 };
+#ifdef ELEM_PACKED
+/* opt-in 1-byte representation (bits 0-1 lifetime state, bits 2-7 value 0..63): one array access per element
+ * operation and no index divider, which keeps cbmc's array theory within memory for symbolic-size blocks */
+typedef struct ELEM { unsigned char g_bits; } ELEM;
+#define ELEM_ST(p) ((unsigned char)((p)->g_bits & 3))
+#define ELEM_V(p) ((int)((p)->g_bits >> 2))
+#define ELEM_SET(p, st, val) ((p)->g_bits = (unsigned char)((((unsigned)(val)) << 2) | (st)))
+#else
 typedef struct ELEM { int v; unsigned char g_state; } ELEM;
+#define ELEM_ST(p) ((p)->g_state)
+#define ELEM_V(p) ((p)->v)
+#define ELEM_SET(p, st, val) ((p)->g_state = (st), (p)->v = (val))
+#endif
 
 static inline void ELEM_construct_default(ELEM *p)
 {
-    __CPROVER_assert(!ELEM_TRACKED(p) || p->g_state == ELEM_RAW, "lifetime: construct over an element that is still alive");
-    p->v = 0; p->g_state = ELEM_LIVE;
+    __CPROVER_assert(!ELEM_TRACKED(p) || ELEM_ST(p) == ELEM_RAW, "lifetime: construct over an element that is still alive");
+    ELEM_SET(p, ELEM_LIVE, 0);
 }
 static inline void ELEM_construct_value(ELEM *p, int v)
 {
-    __CPROVER_assert(!ELEM_TRACKED(p) || p->g_state == ELEM_RAW, "lifetime: construct over an element that is still alive");
-    p->v = v; p->g_state = ELEM_LIVE;
+    __CPROVER_assert(!ELEM_TRACKED(p) || ELEM_ST(p) == ELEM_RAW, "lifetime: construct over an element that is still alive");
+    ELEM_SET(p, ELEM_LIVE, v);
 }
 static inline void ELEM_copy_construct(ELEM *p, const ELEM *src)
 {
-    __CPROVER_assert(!ELEM_TRACKED(p) || p->g_state == ELEM_RAW, "lifetime: copy-construct over an element that is still alive");
-    __CPROVER_assert(!ELEM_TRACKED(src) || src->g_state == ELEM_LIVE, "lifetime: copy-construct from an unconstructed / destroyed / moved-from element");
-    p->v = src->v; p->g_state = ELEM_LIVE;
+    __CPROVER_assert(!ELEM_TRACKED(p) || ELEM_ST(p) == ELEM_RAW, "lifetime: copy-construct over an element that is still alive");
+    __CPROVER_assert(!ELEM_TRACKED(src) || ELEM_ST(src) == ELEM_LIVE, "lifetime: copy-construct from an unconstructed / destroyed / moved-from element");
+    ELEM_SET(p, ELEM_LIVE, ELEM_V(src));
 }
 static inline void ELEM_move_construct(ELEM *p, ELEM *src)
 {
-    __CPROVER_assert(!ELEM_TRACKED(p) || p->g_state == ELEM_RAW, "lifetime: move-construct over an element that is still alive");
-    __CPROVER_assert(!ELEM_TRACKED(src) || src->g_state == ELEM_LIVE, "lifetime: move-construct from an unconstructed / destroyed / moved-from element");
-    p->v = src->v; p->g_state = ELEM_LIVE; src->g_state = ELEM_MOVED;
+    __CPROVER_assert(!ELEM_TRACKED(p) || ELEM_ST(p) == ELEM_RAW, "lifetime: move-construct over an element that is still alive");
+    __CPROVER_assert(!ELEM_TRACKED(src) || ELEM_ST(src) == ELEM_LIVE, "lifetime: move-construct from an unconstructed / destroyed / moved-from element");
+    ELEM_SET(p, ELEM_LIVE, ELEM_V(src)); ELEM_SET(src, ELEM_MOVED, ELEM_V(src));
 }
 static inline void ELEM_copy_assign(ELEM *p, const ELEM *src)
 {
-    __CPROVER_assert(!ELEM_TRACKED(p) || p->g_state == ELEM_LIVE || p->g_state == ELEM_MOVED, "lifetime: assignment to an unconstructed or destroyed element");
-    __CPROVER_assert(!ELEM_TRACKED(src) || src->g_state == ELEM_LIVE, "lifetime: assignment from an unconstructed / destroyed / moved-from element");
-    p->v = src->v; p->g_state = ELEM_LIVE;
+    __CPROVER_assert(!ELEM_TRACKED(p) || ELEM_ST(p) == ELEM_LIVE || ELEM_ST(p) == ELEM_MOVED, "lifetime: assignment to an unconstructed or destroyed element");
+    __CPROVER_assert(!ELEM_TRACKED(src) || ELEM_ST(src) == ELEM_LIVE, "lifetime: assignment from an unconstructed / destroyed / moved-from element");
+    ELEM_SET(p, ELEM_LIVE, ELEM_V(src));
 }
 static inline void ELEM_move_assign(ELEM *p, ELEM *src)
 {
-    __CPROVER_assert(!ELEM_TRACKED(p) || p->g_state == ELEM_LIVE || p->g_state == ELEM_MOVED, "lifetime: move-assignment to an unconstructed or destroyed element");
-    __CPROVER_assert(!ELEM_TRACKED(src) || src->g_state == ELEM_LIVE, "lifetime: move-assignment from an unconstructed / destroyed / moved-from element");
-    if (p != src) { p->v = src->v; p->g_state = ELEM_LIVE; src->g_state = ELEM_MOVED; }
+    __CPROVER_assert(!ELEM_TRACKED(p) || ELEM_ST(p) == ELEM_LIVE || ELEM_ST(p) == ELEM_MOVED, "lifetime: move-assignment to an unconstructed or destroyed element");
+    __CPROVER_assert(!ELEM_TRACKED(src) || ELEM_ST(src) == ELEM_LIVE, "lifetime: move-assignment from an unconstructed / destroyed / moved-from element");
+    if (p != src) { ELEM_SET(p, ELEM_LIVE, ELEM_V(src)); ELEM_SET(src, ELEM_MOVED, ELEM_V(src)); }
 }
 static inline void ELEM_destroy(ELEM *p)
 {
-    __CPROVER_assert(!ELEM_TRACKED(p) || p->g_state == ELEM_LIVE || p->g_state == ELEM_MOVED, "lifetime: destructor run on an unconstructed or already destroyed element");
-    p->g_state = ELEM_RAW;
+    __CPROVER_assert(!ELEM_TRACKED(p) || ELEM_ST(p) == ELEM_LIVE || ELEM_ST(p) == ELEM_MOVED, "lifetime: destructor run on an unconstructed or already destroyed element");
+    ELEM_SET(p, ELEM_RAW, ELEM_V(p));
 }
 static inline int ELEM_value(const ELEM *p)
 {
-    __CPROVER_assert(!ELEM_TRACKED(p) || p->g_state == ELEM_LIVE, "lifetime: read of an unconstructed / destroyed / moved-from element");
-    return p->v;
+    __CPROVER_assert(!ELEM_TRACKED(p) || ELEM_ST(p) == ELEM_LIVE, "lifetime: read of an unconstructed / destroyed / moved-from element");
+    return ELEM_V(p);
 }
 #endif
